@@ -74,6 +74,16 @@ theorem sd2_open_sane (p : Params) (n : Nat) (i : Info) (h : openInfo p n = .ok 
   · contradiction
   · injection h with h; subst h; simp only; omega
 
+/-- non-vacuity: on the fork the library writes for 16-bit stereo at 44100 Hz the parser makes 105 byte reads, the largest at
+    offset 417 of 444, ends through the data-offset test of the sixth iteration and never comes near its loop bound -/
+example : (parseReads (rsrc { size := 2, rate := 44100, ch := 2, name := asc "s0.sd2" })).length = 105 ∧
+    (parseReads (rsrc { size := 2, rate := 44100, ch := 2, name := asc "s0.sd2" })).all (· < 444) = true ∧
+    (parseReads (rsrc { size := 2, rate := 44100, ch := 2, name := asc "s0.sd2" })).contains 417 = true ∧
+    parseRsrc (rsrc { size := 2, rate := 44100, ch := 2, name := asc "s0.sd2" }) ≠ .fuel := by decide +kernel
+
+example : finish { strOff := 0, size := 44100, rate := 2, ch := 2 } = .ok { size := 2, rate := 44100, ch := 2 } ∧
+    openInfo { size := 2, rate := 44100, ch := 2 } 16 = .ok { ch := 2, fmt := 0x160002, sr := 44100, frames := 4 } := by decide
+
 example : parseRsrc [0, 0, 1, 0] = .err .badDataOffset ∧ parseReads [0, 0, 1, 0] = [0, 1, 2, 3] := by decide +kernel
 
 /-! ## C04: what the writer stores is read back -/
